@@ -287,3 +287,26 @@ def h_jwe_json_decrypt_use():
 
 h_jwe_json_decrypt_use.seed_fn = lambda rnd: {"alg": rnd.randrange(2), "use": rnd.randrange(3), "k": bytes(rnd.randrange(256) for _ in range(16)), "p": b"x"}
 HARNESSES.append(h_jwe_json_decrypt_use)
+
+
+def h_jwe_json_encrypt_preset_recipient_use():
+    """JSON encryption: a recipient key attached with add_recipient passes the same use gate as a guessed one."""
+    use = sym_choice("use", USES)
+    how = sym_choice("attach", ["add_recipient", "key-argument"])
+    k = sym_bytes("k")
+    assume(len(k) == 16)
+    from joserfc.jwe import FlattenedJSONEncryption
+    key = OctKey.import_key(k, {"use": use} if use is not None else None)
+    obj = FlattenedJSONEncryption({"alg": "A128KW", "enc": "A128GCM"}, sym_bytes("p"))
+    if how == "add_recipient":
+        obj.add_recipient(None, key)
+        out = call(jwe.encrypt_json, obj, None, ["A128KW", "A128GCM"])
+    else:
+        obj.add_recipient(None)
+        out = call(jwe.encrypt_json, obj, key, ["A128KW", "A128GCM"])
+    if out.returned:
+        check(use is None or use == "enc", "JWE JSON encryption succeeded => the recipient key's declared use is enc")
+
+
+h_jwe_json_encrypt_preset_recipient_use.seed_fn = lambda rnd: {"use": rnd.randrange(3), "attach": rnd.randrange(2), "k": bytes(rnd.randrange(256) for _ in range(16)), "p": b"x"}
+HARNESSES.append(h_jwe_json_encrypt_preset_recipient_use)
